@@ -554,7 +554,7 @@ func renderErr(pkg string, s *ErrSpec) map[string]string {
 	}
 	needTime := false
 	for _, f := range s.Fields {
-		if strings.Contains(strings.ReplaceAll(f.Type, "stdtime.", ""), "time.") {
+		if strings.Contains(strings.ReplaceAll(f.Type, "stdtime.", ""), "time.") || f.Type == "Span" {
 			needTime = true
 		}
 	}
@@ -690,6 +690,11 @@ func sortShapes(s *SortSpec) []string {
 			if f.Type == "bool" {
 				add("bool_key")
 			}
+			for _, nt := range sortNamed {
+				if f.Type == nt[0] {
+					add("named_" + nt[1] + "_key")
+				}
+			}
 		}
 		if len(f.Tags) > 1 {
 			add("multi_sorter_field")
@@ -697,6 +702,17 @@ func sortShapes(s *SortSpec) []string {
 	}
 	if strings.HasPrefix(s.Label, "notstruct") {
 		add("not_a_struct")
+	}
+	forms := map[string]string{}
+	for _, f := range s.Fields {
+		for _, t := range f.Tags {
+			n := strings.Split(t, ",")[0]
+			base := strings.TrimPrefix(n, "*")
+			if prev, ok := forms[base]; ok && prev != n {
+				add("sorter_in_both_forms")
+			}
+			forms[base] = n
+		}
 	}
 	return out
 }
@@ -706,7 +722,7 @@ func renderSort(pkg string, s *SortSpec) map[string]string {
 	fmt.Fprintf(&sb, "package %s\n\n", pkg)
 	needTime := false
 	for _, f := range s.Fields {
-		if strings.Contains(strings.ReplaceAll(f.Type, "stdtime.", ""), "time.") {
+		if strings.Contains(strings.ReplaceAll(f.Type, "stdtime.", ""), "time.") || f.Type == "Span" {
 			needTime = true
 		}
 	}
@@ -725,10 +741,13 @@ func renderSort(pkg string, s *SortSpec) map[string]string {
 		sb.WriteString("import \"time\"\n\n")
 	}
 	fmt.Fprintf(&sb, "//go:generate gsort -types=%s\n\n", s.Type)
+	declared := map[string]bool{}
 	for _, f := range s.Fields {
-		if f.Type == "Category" {
-			sb.WriteString("// Category has a String accessor.\ntype Category int\n\n// String names the category.\nfunc (c Category) String() string {\n\tif c == 0 {\n\t\treturn \"zero\"\n\t}\n\treturn \"other\"\n}\n\n")
-			break
+		for _, nt := range sortNamed {
+			if f.Type == nt[0] && !declared[f.Type] {
+				declared[f.Type] = true
+				fmt.Fprintf(&sb, "// %s has a String accessor.\ntype %s %s\n\n// String names the value.\nfunc (c %s) String() string {\n\tvar zero %s\n\tif c == zero {\n\t\treturn \"zero\"\n\t}\n\treturn \"other\"\n}\n\n", nt[0], nt[0], nt[1], nt[0], nt[0])
+			}
 		}
 	}
 	if strings.HasPrefix(s.Label, "notstruct") {
